@@ -493,6 +493,14 @@ func TestC20HTTP(t *testing.T) {
 			for _, l := range ls {
 				labels[l] = true
 			}
+			for _, f := range lt.files {
+				if f.pad && f.attr != "" {
+					labels["padding-flag-among-other-flags"] = true
+				}
+				if !f.pad && f.attr != "" {
+					labels["other-flags-without-padding"] = true
+				}
+			}
 			if !lt.magnet && lt.legacy&1 != 0 && !lt.single {
 				labels["names-in-path.utf-8"] = true
 				if lt.legacy&2 == 0 {
